@@ -115,6 +115,9 @@ func (x *Exec) evalInt(env *Env, e Expr) string {
 	return tv.T
 }
 
+// backingT is the pseudo struct type of slice backing stores (so that ghost fields can be attached to them).
+var backingT = types.NewNamed(types.NewTypeName(0, nil, "backing", nil), types.NewStruct(nil, nil), nil)
+
 var (
 	tInt  = types.Typ[types.Int]
 	tBool = types.Typ[types.Bool]
@@ -503,11 +506,34 @@ func (x *Exec) strExt(st *State, s, t string) {
 }
 
 func (x *Exec) seqEq(a, b SQ) string {
-	q := x.reg.fresh("qi")
-	q = strings.Trim(q, "|")
-	q = "|" + q + "|"
-	return and(eq(a.L, b.L), fmt.Sprintf("(forall ((%s Int)) (! (=> (and (<= 0 %s) (< %s %s)) (= (select %s (+ %s %s)) (select %s (+ %s %s)))) :pattern ((select %s (+ %s %s))) :pattern ((select %s (+ %s %s)))))",
-		q, q, q, a.L, a.A, a.O, q, b.A, b.O, q, a.A, a.O, q, b.A, b.O, q))
+	x.P.qcount++
+	q := fmt.Sprintf("qi!%d", x.P.qcount)
+	body := implies(and(le("0", q), lt(q, a.L)), eq(sel(a.A, add(a.O, q)), sel(b.A, add(b.O, q))))
+	return and(eq(a.L, b.L), renderForall(body, []string{q}, []string{"(" + q + " Int)"}))
+}
+
+// renderForall renders a universally quantified body with inferred triggers (both variants, see quant).
+func renderForall(body string, names, decl []string) string {
+	render := func(body string, decl []string, trigs [][]string) string {
+		var pat strings.Builder
+		for _, tr := range trigs {
+			pat.WriteString(" :pattern (" + strings.Join(tr, " ") + ")")
+		}
+		if pat.Len() > 0 {
+			return fmt.Sprintf("(forall (%s) (! %s%s))", strings.Join(decl, " "), body, pat.String())
+		}
+		return fmt.Sprintf("(forall (%s) %s)", strings.Join(decl, " "), body)
+	}
+	b1, _, d1, t1 := autoTrigger(body, append([]string(nil), names...), append([]string(nil), decl...), false)
+	out := render(b1, d1, t1)
+	if b2, _, d2, t2 := autoTrigger(body, append([]string(nil), names...), append([]string(nil), decl...), true); b2 != b1 && len(t2) > 0 {
+		if len(t1) == 0 {
+			out = render(b2, d2, t2)
+		} else {
+			out = and(out, render(b2, d2, t2))
+		}
+	}
+	return out
 }
 
 func (e *Env) call(c *CallE) Val {
@@ -542,8 +568,11 @@ func (e *Env) call(c *CallE) Val {
 		}
 	case "backing":
 		if v, ok := e.eval(c.Args[0]).(SL); ok {
-			return TV{v.B, tInt}
+			return TV{v.B, types.NewPointer(backingT)}
 		}
+	case "zero":
+		t := x.P.resolveType(c.Args[0], e.tctx)
+		return x.zeroVal(t.Go)
 	case "old":
 		ne := *e
 		ne.cur = e.old
@@ -862,21 +891,37 @@ func (e *Env) quant(q *Quant) Val {
 	if body == "true" || body == "false" {
 		return boolTV(body)
 	}
-	if len(trigs) == 0 {
-		body, names, decl, trigs = autoTrigger(body, names, decl)
-	}
 	kw := "forall"
 	if !q.All {
 		kw = "exists"
 	}
-	var pat strings.Builder
-	for _, tr := range trigs {
-		pat.WriteString(" :pattern (" + strings.Join(tr, " ") + ")")
+	render := func(body string, decl []string, trigs [][]string) string {
+		var pat strings.Builder
+		for _, tr := range trigs {
+			pat.WriteString(" :pattern (" + strings.Join(tr, " ") + ")")
+		}
+		if pat.Len() > 0 {
+			return fmt.Sprintf("(%s (%s) (! %s%s))", kw, strings.Join(decl, " "), body, pat.String())
+		}
+		return fmt.Sprintf("(%s (%s) %s)", kw, strings.Join(decl, " "), body)
 	}
-	if pat.Len() > 0 {
-		return boolTV(fmt.Sprintf("(%s (%s) (! %s%s))", kw, strings.Join(decl, " "), body, pat.String()))
+	if len(trigs) > 0 {
+		return boolTV(render(body, decl, trigs))
 	}
-	return boolTV(fmt.Sprintf("(%s (%s) %s)", kw, strings.Join(decl, " "), body))
+	// variant 1: triggers on the terms as written; variant 2 (when an index is used with an offset):
+	// the same formula after the change of variable j = offset + i, triggering on the offset accesses.
+	b1, _, d1, t1 := autoTrigger(body, append([]string(nil), names...), append([]string(nil), decl...), false)
+	out := render(b1, d1, t1)
+	if b2, _, d2, t2 := autoTrigger(body, append([]string(nil), names...), append([]string(nil), decl...), true); b2 != b1 && len(t2) > 0 {
+		if len(t1) == 0 {
+			out = render(b2, d2, t2)
+		} else if q.All {
+			out = and(out, render(b2, d2, t2))
+		} else {
+			out = or(out, render(b2, d2, t2))
+		}
+	}
+	return boolTV(out)
 }
 
 func isUntypedOrInt(t types.Type) bool {
@@ -994,10 +1039,13 @@ func (n *sx) hasInterpreted(vars []string) bool {
 
 // autoTrigger picks patterns; it may rewrite the body by the change of variable j = O + i
 // when a bound variable i is only ever used as an index (+ O i) with a single O.
-func autoTrigger(body string, names, decl []string) (string, []string, []string, [][]string) {
+func autoTrigger(body string, names, decl []string, cov bool) (string, []string, []string, [][]string) {
 	tree := parseSx(body)
 	// change of variable for offset indexing
 	for vi, v := range names {
+		if !cov {
+			break
+		}
 		offs := map[string]int{}
 		direct := 0
 		var walk func(n *sx)
@@ -1019,9 +1067,7 @@ func autoTrigger(body string, names, decl []string) (string, []string, []string,
 			}
 		}
 		walk(tree)
-		if direct > 0 {
-			continue
-		}
+		_ = direct
 		if len(offs) == 1 {
 			var off string
 			for o := range offs {
@@ -1083,7 +1129,7 @@ func autoTrigger(body string, names, decl []string) (string, []string, []string,
 					vs[v] = true
 				}
 			}
-			bad := false
+			bad := n.contains("ite") || n.contains("forall") || n.contains("exists")
 			for _, k := range n.kids[1:] {
 				if k.hasInterpreted(names) {
 					bad = true
